@@ -205,9 +205,14 @@ class Rec(Collector):
         self.records.append([self.sig, self.model.systems.timestep])
 
 
+LABELS = ["dry", "ab", "", "x", "wet season"]
+
+
 class BatchModel(Model):
-    def __init__(self, stop=3, cstart=0, cfreq=1, d=0, burn=-1):
+    def __init__(self, stop=3, cstart=0, cfreq=1, d=0, burn=-1, label="dry"):
         super().__init__()
+        if label not in LABELS:          # a text parameter must arrive as the very value that was declared
+            raise Boom()
         fail = stop == FAILSTOP
         if fail and d % 2 == 1:
             raise Boom()
@@ -230,6 +235,11 @@ def run_batch(prog):
     for op in prog:
         _, grid, reps, limit, two, procs, failstop = op
         FAILSTOP = failstop
+        scalar = {e[0] for e in grid if len(e) > 2 and e[2] == "scalar" and len(e[1]) == 1}    # declared as the bare value, not a list
+        grid = [[e[0], e[1]] for e in grid]
+
+        def declared_value(n, v):
+            return v[0] if n in scalar else list(v)
         if len(prog) > 1:
             if shared is None:
                 shared = ParameterList({n: list(v) for n, v in grid})
@@ -245,8 +255,13 @@ def run_batch(prog):
                 grid = [[n, dict((a, b) for a, b in grid)[n]] for n in declared]     # declaration order of the shared list
             params = shared
         else:
-            params = {n: list(v) for n, v in grid}
-            if procs % 2 == 0:
+            params = {n: declared_value(n, v) for n, v in grid}
+            if (reps + len(grid)) % 3 == 0:
+                built = ParameterList()                  # declared parameter by parameter
+                for n, v in grid:
+                    built.add_parameter(n, declared_value(n, v))
+                params = built
+            elif procs % 2 == 0:
                 sibling = ParameterList(params)          # another list declared from the same dictionary ...
                 params = ParameterList(params)
                 sibling.add_parameter("zz", [1, 2])      # ... is edited: must not show in this one
@@ -276,6 +291,16 @@ def random_batch_program(rng, procs_choices, fail=None):
     if rng.random() < 0.3:
         grid.append(["burn", rng.sample([0, 1, 2], rng.randint(1, 2))])
     grid.append(["d", rng.sample([0, 1, 2, 4, 7], rng.randint(1, 2))])
+    ncomb = 1
+    for e in grid:
+        ncomb *= len(e[1])
+    r = rng.random()
+    if r < 0.2:
+        grid.append(["label", [rng.choice(LABELS)], "scalar"])       # one text value, declared as the bare string
+    elif r < 0.3 and ncomb <= 12:
+        grid.append(["label", rng.sample(LABELS, 2)])
+    elif r < 0.45 and ncomb <= 12:
+        stops.append(stops[0])            # the same value listed twice: two grid points
     rng.shuffle(grid)
     reps = rng.choice([1, 1, 2, 3])
     limit = rng.choice([0, 1, 2, 3, 4, 5, BIG])
@@ -339,10 +364,15 @@ MODES = {"MIN": ScoreMode.MIN, "MAX": ScoreMode.MAX, "MIN_MEAN": ScoreMode.MIN_M
 SENT = 987654321
 
 
+def _key(x, y):
+    """Grid points are told apart by value AND type: 1, 1.0 and True are equal values but different grid points."""
+    return (x, type(x).__name__, y, type(y).__name__)
+
+
 class SearchModel(Model):
     def __init__(self, x=0, y=0):
         super().__init__()
-        self.key = (x, y)
+        self.key = _key(x, y)
         if SLOW_FIRST and x == 0 and y == 0:
             time.sleep(0.05)              # the first grid point finishes last: completion order differs from grid order
         self.rep = COUNT.get(self.key, 0)
@@ -374,7 +404,7 @@ def run_search(prog):
         # combinations in declaration order, first slowest (only to key the score table by parameter values)
         import itertools
         keys = [dict(zip(names, vals)) for vals in itertools.product(*[v for _, v in grid])]
-        TABLE = {(k.get("x", 0), k.get("y", 0)): list(table[i]) for i, k in enumerate(keys)}
+        TABLE = {_key(k.get("x", 0), k.get("y", 0)): list(table[i]) for i, k in enumerate(keys)}
         COUNT = {}
         SCALE = scale
         SLOW_FIRST = procs > 1
@@ -404,7 +434,7 @@ def run_search(prog):
             best = next((i + 1 for i, r in enumerate(results) if r is b), 0)
         except Exception as e:  # noqa: BLE001
             exc = e
-        events.append({"op": "grid_search", "grid": [[nm, list(v)] for nm, v in grid], "reps": reps, "mode": mode, "procs": procs,
+        events.append({"op": "grid_search", "grid": [[nm, [int(x) for x in v]] for nm, v in grid], "reps": reps, "mode": mode, "procs": procs,
                        "scale": scale, "table": [list(r) for r in table], "K": K, "out": outcome(exc), "report": report, "best": best})
     return events
 
@@ -414,6 +444,12 @@ def search_programs_from_tables(tables, modes, procs_choices, scales, rng, grid=
     for t in tables:
         ncomb, reps = len(t), len(t[0])
         g = grid or ([["x", list(range(ncomb))]] if ncomb != 4 else [["x", [0, 1]], ["y", [0, 1]]])
+        if grid is None and rng.random() < 0.25:
+            # a grid that lists equal values more than once (1, 1.0 and True are equal; the fixture tells them apart by type)
+            if ncomb == 4:
+                g = [["x", [0, 0.0]], ["y", [1, True]]]
+            elif ncomb in (2, 3):
+                g = [["x", [1, 1.0, True][:ncomb]]]
         for mode in modes:
             if "VARIANCE" in mode and reps < 2:
                 continue
